@@ -540,3 +540,14 @@ PROPS["C15"].assumptions = PROPS["C15"].assumptions + [
     "V-typefns: `->len()` = number of bytes of the receiver, for any string; std contracts assumed: String::from_utf8 yields a String with exactly those bytes, "
     "String::len is its byte length, chars().count() its character count; the lookup of `len` in the type-function table (eval_expr Prop arm with type_prop) is V-expr's"]
 PROPS["C18"]._v = PROPS["C18"]._v + [V_STRLIT]       # position of lexical errors inside string literals
+
+
+# main.rs::main - how a failure is reported (C17 / C03)
+V_MAIN = VUnit("main_report", "main_report", ["main::main"])
+ALL_V += [V_MAIN]
+PROPS["C02"]._v = ALL_V
+for _p in ("C17", "C03"):
+    PROPS[_p]._v = PROPS[_p]._v + [V_MAIN]
+    PROPS[_p].assumptions = PROPS[_p].assumptions + [
+        "V-main: the effects of fn main (eprintln! / process::exit) are reified mechanically (edit D7) into a returned (log, status) pair; run, render_parse_error and "
+        "eval_err_to_stacktrace are external with uninterpreted results, so the message TEXT after the path is whatever they return; std::fmt / env::args / join assumed"]
